@@ -32,6 +32,7 @@ structure PendingTx where
   addpathTx : Bool
   reach : List (TxKey × (Net × Attrs × Option Nh)) := []
   unreach : List (TxKey × Net) := []
+  stray : List (Nat × Net) := []     -- `stray_unreach`: (path id, prefix)
   buffered : List Msg := []
   pendingEor : Bool := false
   deriving DecidableEq, Repr, Inhabited
@@ -44,7 +45,11 @@ def eraseKey {α} (k : TxKey) (l : List (TxKey × α)) : List (TxKey × α) := l
 /-- `PendingTx::reach` -/
 def doReach (p : PendingTx) (d : Nat) (net : Net) (pid : Nat) (nh : Option Nh) (as : Attrs) : PendingTx :=
   let k := p.key d pid
-  { p with unreach := eraseKey k p.unreach, reach := eraseKey k p.reach ++ [(k, (net, as, nh))] }
+  let stray := match p.unreach.find? (·.1 = k) with
+    | some (_, old) => if old ≠ net then p.stray ++ [(k.2, old)] else p.stray
+    | none => p.stray
+  { p with unreach := eraseKey k p.unreach, stray := stray,
+           reach := eraseKey k p.reach ++ [(k, (net, as, nh))] }
 
 /-- `PendingTx::unreach` -/
 def doUnreach (p : PendingTx) (d : Nat) (net : Net) (pid : Nat) : PendingTx :=
@@ -55,17 +60,19 @@ def apply (p : PendingTx) : SinkOp Net → PendingTx
   | .reach d net pid nh as => p.doReach d net pid nh as
   | .unreach d net pid => p.doUnreach d net pid
 
-def isEmpty (p : PendingTx) : Bool := p.buffered.isEmpty && p.reach.isEmpty && p.unreach.isEmpty
+def isEmpty (p : PendingTx) : Bool :=
+  p.buffered.isEmpty && p.reach.isEmpty && p.unreach.isEmpty && p.stray.isEmpty
 
 /-- `PendingTx::drain_messages`: buffered dump first, then one Unreach message, then the reach
     entries (one message per entry here: grouping by (attributes, next hop) only affects framing),
     then the scheduled EOR. -/
 def drain (p : PendingTx) : List Msg × PendingTx :=
-  let w : List Msg := if p.unreach.isEmpty then [] else [.unreach (p.unreach.map (fun e => (e.1.2, e.2)))]
+  let w : List Msg := if p.unreach.isEmpty && p.stray.isEmpty then []
+    else [.unreach (p.stray ++ p.unreach.map (fun e => (e.1.2, e.2)))]
   let r : List Msg := p.reach.map (fun e => .reach [(e.1.2, e.2.1)] e.2.2.2 e.2.2.1)
   let e : List Msg := if p.pendingEor then [.eor] else []
   (p.buffered ++ w ++ r ++ e,
-   { p with reach := [], unreach := [], buffered := [], pendingEor := false })
+   { p with reach := [], unreach := [], stray := [], buffered := [], pendingEor := false })
 end PendingTx
 
 /-! ## The neighbour's mirror Adj-RIB-In (abstract codec) -/
@@ -120,8 +127,10 @@ def prefersOverIbgp : Role → Bool
   | .ebgp | .rsClient => true
   | _ => false
 
-/-- `impl Ord for RibEntry` as a lexicographic key (smaller = better); `stale` is never set by
-    the operations modelled here. -/
+/-- `impl Ord for RibEntry` as a lexicographic key (smaller = better): LLGR-stale first (the
+    repaired order, RFC 9494), LOCAL_PREF, AS_PATH hops, ORIGIN, eBGP over iBGP, stale (never set by
+    the operations modelled here), CLUSTER_LIST length, ORIGINATOR_ID / router-id.  The decision
+    order itself is C02's subject; C01 cases avoid LLGR_STALE so that they do not depend on it. -/
 def rankKey (e : RibEntry) : List Nat :=
   let as := e.path.attrs
   let lp := ((findCode Attr.LOCAL_PREF as).bind Attr.value?).getD Attr.DEFAULT_LOCAL_PREF
@@ -133,8 +142,8 @@ def rankKey (e : RibEntry) : List Nat :=
     | some ws => ws.length
     | none => 0
   let oid := ((findCode Attr.ORIGINATOR_ID as).bind Attr.value?).getD e.path.src.routerId
-  [4294967295 - lp, plen, origin % 256, if prefersOverIbgp e.path.src.role then 0 else 1, 0,
-   if e.path.src.llgr || hasLlgrCommunity as then 1 else 0, clen, oid]
+  [if e.path.src.llgr || hasLlgrCommunity as then 1 else 0,
+   4294967295 - lp, plen, origin % 256, if prefersOverIbgp e.path.src.role then 0 else 1, 0, clen, oid]
 
 def lexLt : List Nat → List Nat → Bool
   | a :: as, b :: bs => a < b || (a = b && lexLt as bs)
@@ -221,9 +230,9 @@ def Shard.drop (s : Shard) (addr : Addr) : Shard × List (Change Net) :=
   ({ s with dests := kept, used := s.used.filter (fun u => !freed.contains u) }, rs.filterMap (·.2))
 
 /-- `collect_loc_rib_paths_limited` -/
-def Shard.collect (s : Shard) (maxPaths : Nat) : List (Change Net) :=
+def Shard.collect (s : Shard) (maxPaths : Option Nat) : List (Change Net) :=
   s.dests.filterMap (fun d =>
-    let ps := (d.entries.take maxPaths).map (·.path)
+    let ps := (match maxPaths with | some n => d.entries.take n | none => d.entries).map (·.path)
     if ps.isEmpty then none else some ⟨d.net, d.id, true, true, none, ps⟩)
 
 /-! ## The observing session -/
@@ -244,9 +253,9 @@ structure SessState where
 
 def applyOps (p : PendingTx) (ops : List (SinkOp Net)) : PendingTx := ops.foldl PendingTx.apply p
 
-/-- `handle_prefix_update` -/
-def SessState.handle (st : SessState) (c : Change Net) : SessState :=
-  let (m, ops) := processNlriChange st.sess.exp c st.map
+/-- `handle_prefix_update` (`resend = false`) / the loop body of `do_route_refresh` (`true`) -/
+def SessState.handle (st : SessState) (c : Change Net) (resend : Bool := false) : SessState :=
+  let (m, ops) := processNlriChange st.sess.exp c st.map resend
   { st with map := m, pending := applyOps st.pending ops }
 
 /-- message list of a `GroupedSink` after the dump (one Reach per sink call) -/
@@ -258,8 +267,9 @@ def dumpMsgs (addpathTx : Bool) (ops : List (SinkOp Net)) : List Msg :=
 /-- the shards of a `TableManager` -/
 abbrev Rib := List Shard
 
-/-- number of paths `on_established` / `do_route_refresh` ask `collect_loc_rib_paths_limited` for -/
-def collectLimit (max : Nat) : Nat := max
+/-- number of paths `on_established` / `do_route_refresh` ask `collect_loc_rib_paths_limited` for:
+    all of them for an add-path session (the window is cut after the per-peer filters), 1 otherwise -/
+def collectLimit (max : Nat) : Option Nat := if max > 1 then none else some 1
 
 /-- `register_peer` closure of `on_established`: dump every shard into an empty export map -/
 def establish (sess : Sess) (rib : Rib) : SessState :=
@@ -274,7 +284,8 @@ def establish (sess : Sess) (rib : Rib) : SessState :=
 
 /-- `do_route_refresh` -/
 def SessState.refresh (st : SessState) (rib : Rib) : SessState :=
-  let st' := (rib.flatMap (fun s => s.collect (collectLimit st.sess.max))).foldl SessState.handle st
+  let st' := (rib.flatMap (fun s => s.collect (collectLimit st.sess.max))).foldl
+    (fun st c => st.handle c true) st
   { st' with pending := { st'.pending with pendingEor := true } }
 
 def SessState.deliver (st : SessState) (rib : Rib) : Ev → SessState
